@@ -281,6 +281,12 @@ class OrderRule(H.CallbackRule):
                 cfg = args[1]
                 alg = it.load(st, cfg.loc, 'alg')
                 key = it.load(st, cfg.loc, 'key')
+                # the signature is checked with the key the token object carries: it must be the admitted one
+                if isinstance(args[0], Ref):
+                    jk = it.load(st, args[0].loc, 'key')
+                    if vkey(jk) != vkey(key):
+                        self.violations.append(('token-key-differs: jwt->key is %r but the key admitted for this verification is %r' % (jk, key),
+                                                node_loc(node)))
             else:
                 jwt = args[0]
                 alg = it.load(st, jwt.loc, 'alg')
